@@ -17,7 +17,7 @@ import (
 func init() {
 	register("C16", PropCheck{
 		Title:      "The assembler emits exactly the instructions that were written",
-		Explain:    "Three clauses with structural content: (R1) no string that the assembler writes as a symbol, selector or label (argument of the symbol writer, or of the batch menu processor) derives from a numeric capture of the grammar (Arg.Size / Arg.Flag) through an integer-to-string conversion - such re-rendering drops leading zeros and trailing letters; (R2) batch expansion equals the documentation: from MenuProcessor.ToLines the per-batch-code pair (instruction before HALT with its argument roles, instruction after HALT with its target and argument roles) is extracted and compared with the expansion table of doc/texinfo/instructions.texi, exactly two instruction buffers exist (before/after), every batch line contributes one instruction to each in source order, and the result is before + HALT + after; (R3) the opcode written for a source line is the OpcodeIndex entry of that line's mnemonic, written once per line; (R4) the integer encoder never right-trims the big-endian buffer (shared with C14 R4); (R5) numbers written are read as numbers: the lexer's constant rule table is read from the initialiser's SSA, every pattern is parsed with regexp/syntax, exactly one token class can begin with a decimal digit and the grammar's integer captures (Arg.Size, Arg.Flag) are bound to that class (added after seeded change C16-C); (R6) each source line is assembled in a buffer allocated for it - the buffer handed to the opcode writer is a bytes.NewBuffer result or local of the line emitter (or, for a helper, of every caller), never pooled or package-level - and vm.NewLine appends each string argument itself, not a slice or derivative (added after seeded changes C16-E and C16-F); (R7) the names the VM itself gives a meaning - string constants of package vm compared with a symbol or placed in the arguments of an instruction it builds: the navigation targets, the wildcard and the catch node - are each read by the lexer (rules in table order, first match wins) as one token of the class the grammar's symbol captures are bound to: a table agreement between the assembler's token class and the VM's reserved names, not a judgement of the grammar (added after seeded change C16-H). (R8) in the functions asm.Parse reaches (and the grammar's Capture methods) that parse numbers from text, no lossy narrowing without a range check; (R9) asm.Parse hands the parser a reader over its own parameter - the text is not rewritten before lexing (added after seeded changes C16-I and C16-J). (R10) every success return of Batcher.MenuAdd passes MenuProcessor.Add (added after seeded change C16-L). (R11) in the flag-name preprocessor of dev/asm (type-checked syntax; the package is tooling, not part of the SSA program) every call of a lookup method of asm.FlagParser lies behind a comparison of the line's mnemonic with CATCH or CROAK - in a switch case or an if, directly or in a helper all of whose callers are - and the word looked up is the operand in the flag position of that opcode, read from the result lists of vm.ParseCatch / vm.ParseCroak (added for seeded change C16-D, which resolved flag names in every operand position). (R12) the lexer's constant rule table is evaluated on a fixed set of comment spellings ('#', '#word', '#9', '# text'): the first matching rule is one and the same class for all and takes the rest of the line (added after seeded change C16-M, which admitted '#' as a symbol character and narrowed the comment rule). (R13) no function of package asm stores to a field of asm.Arg: the captured operands reach every emitter as captured (added after seeded change C16-N, a wildcard swap hoisted over batch menu lines). (R14) for every call in package asm of a function of package asm whose last result is an error, that error value is read (tested, returned, handed on) - found a genuine defect on the pinned tree: the single-symbol path of the line emitter dropped the symbol writer's refusal and flushed the bare opcode (repaired in /repo). (R15) in every function that calls MenuProcessor.ToLines, every path from the call to a return empties the processor (store of nil/empty/fresh to MenuProcessor.items or of a new processor), unless ToLines does so itself - found a genuine defect on the pinned tree: a second batch block repeated the lines of the first (repaired in /repo).",
+		Explain:    "Three clauses with structural content: (R1) no string that the assembler writes as a symbol, selector or label (argument of the symbol writer, or of the batch menu processor) derives from a numeric capture of the grammar (Arg.Size / Arg.Flag) through an integer-to-string conversion - such re-rendering drops leading zeros and trailing letters; (R2) batch expansion equals the documentation: from MenuProcessor.ToLines the per-batch-code pair (instruction before HALT with its argument roles, instruction after HALT with its target and argument roles) is extracted and compared with the expansion table of doc/texinfo/instructions.texi, exactly two instruction buffers exist (before/after), every batch line contributes one instruction to each in source order, and the result is before + HALT + after; (R3) the opcode written for a source line is the OpcodeIndex entry of that line's mnemonic, written once per line; (R4) the integer encoder never right-trims the big-endian buffer (shared with C14 R4); (R5) numbers written are read as numbers: the lexer's constant rule table is read from the initialiser's SSA, every pattern is parsed with regexp/syntax, exactly one token class can begin with a decimal digit and the grammar's integer captures (Arg.Size, Arg.Flag) are bound to that class (added after seeded change C16-C); (R6) each source line is assembled in a buffer allocated for it - the buffer handed to the opcode writer is a bytes.NewBuffer result or local of the line emitter (or, for a helper, of every caller), never pooled or package-level - and vm.NewLine appends each string argument itself, not a slice or derivative (added after seeded changes C16-E and C16-F); (R7) the names the VM itself gives a meaning - string constants of package vm compared with a symbol or placed in the arguments of an instruction it builds: the navigation targets, the wildcard and the catch node - are each read by the lexer (rules in table order, first match wins) as one token of the class the grammar's symbol captures are bound to: a table agreement between the assembler's token class and the VM's reserved names, not a judgement of the grammar (added after seeded change C16-H). (R8) in the functions asm.Parse reaches (and the grammar's Capture methods) that parse numbers from text, no lossy narrowing without a range check; (R9) asm.Parse hands the parser a reader over its own parameter - the text is not rewritten before lexing (added after seeded changes C16-I and C16-J). (R10) every success return of Batcher.MenuAdd passes MenuProcessor.Add (added after seeded change C16-L). (R11) in the flag-name preprocessor of dev/asm (type-checked syntax; the package is tooling, not part of the SSA program) every call of a lookup method of asm.FlagParser lies behind a comparison of the line's mnemonic with CATCH or CROAK - in a switch case or an if, directly or in a helper all of whose callers are - and the word looked up is the operand in the flag position of that opcode, read from the result lists of vm.ParseCatch / vm.ParseCroak (added for seeded change C16-D, which resolved flag names in every operand position). (R12) the lexer's constant rule table is evaluated on a fixed set of comment spellings ('#', '#word', '#9', '# text'): the first matching rule is one and the same class for all and takes the rest of the line (added after seeded change C16-M, which admitted '#' as a symbol character and narrowed the comment rule). (R13) no function of package asm stores to a field of asm.Arg: the captured operands reach every emitter as captured (added after seeded change C16-N, a wildcard swap hoisted over batch menu lines). (R14) for every call in package asm of a function of package asm whose last result is an error, that error value is read (tested, returned, handed on) - found a genuine defect on the pinned tree: the single-symbol path of the line emitter dropped the symbol writer's refusal and flushed the bare opcode (repaired in /repo). (R15) in every function that calls MenuProcessor.ToLines, every path from the call to a return empties the processor (store of nil/empty/fresh to MenuProcessor.items or of a new processor), unless ToLines does so itself - found a genuine defect on the pinned tree: a second batch block repeated the lines of the first (repaired in /repo). (R16) = C14 R14: the two instruction buffers of the batch expansion share no memory (added after seeded change C16-O). Not reported: C16-P (the operand shapes of a batch line are tested in an order in which the three-word shape is shadowed by the two-word shape) - a decision order among predicates over optional captures; the grammar's shape dispatch is declared not decided.",
 		NotDecided: "per-program translation fidelity in general (needs an independent parse of the source); the participle grammar itself; comments and blank lines.",
 		Run:        runC16,
 	})
@@ -30,6 +30,7 @@ func runC16(w *core.World, r *core.Report) {
 	r.Rule("R4", "integer encoder never right-trims the big-endian buffer")
 	r.Rule("R6", "each source line is assembled in a buffer allocated for it (no pooled or package-level buffer); vm.NewLine appends its string arguments unmodified")
 	r.Rule("R10", "every batch menu line the assembler accepts reaches the menu processor")
+	r.Rule("R16", "the two instruction buffers of the batch menu expansion share no memory (C14 R14)")
 	r.Rule("R15", "the menu processor is emptied when a batch block has been expanded (a second block expands to its own lines only)")
 	r.Rule("R14", "error discipline in the assembler: the error of every writer / emitter / batcher step is used (tested, returned or handed on)")
 	r.Rule("R13", "the operands captured by the grammar (fields of asm.Arg) are not rewritten before emission")
@@ -180,6 +181,7 @@ func runC16(w *core.World, r *core.Report) {
 	checkParsedArgsNotRewritten(w, r, "R13")
 	checkAsmWriterErrorsChecked(w, r, "R14")
 	checkMenuItemsEmptiedAfterExpansion(w, r, "R15")
+	checkMenuBuffersDistinct(w, r, "R16")
 	checkAsmNumbersNotNarrowed(w, r, "R8")
 	checkFreshLineBuffer(w, r, "R6")
 	checkNewLineArgsUnmodified(w, r, "R6")
